@@ -1734,7 +1734,7 @@ def rule_cover(rep, inst, R="C03.cover"):
     for cname, kind, fn in inst.fns:
         if cname != "xdynamic_bitset_base" or fn.get("name") in ("operator<<=", "operator>>="):
             continue
-        loops = [n for n in ir.walk_expr(fn) if n.get("kind") == "ForStmt"]
+        loops = [n for n in ir.walk_expr(fn) if n.get("kind") in ("ForStmt", "WhileStmt")]
         if not loops:
             continue
         lab = label(cname, kind, fn, inst)
@@ -1742,7 +1742,24 @@ def rule_cover(rep, inst, R="C03.cover"):
         names = {n.get("name"): n for n in ir.walk_expr(fn) if n.get("kind") == "VarDecl"}
         for loop in loops:
             raw = loop.get("inner", [])
-            init, cond, inc = raw[0], raw[2], raw[3]
+            if loop.get("kind") == "WhileStmt":
+                # `T i = A; while (cond(i)) { ... ++i; }`: the same loop, written out
+                r2 = [c for c in raw if isinstance(c, dict) and c.get("kind")]
+                cond, body_w = r2[-2], r2[-1]
+                incs = [x for x in ir.walk_expr(body_w) if x.get("kind") == "UnaryOperator" and x.get("opcode") == "++" and ir.strip(ir.ekids(x)[0]).get("kind") == "DeclRefExpr"]
+                cvars = {(x.get("referencedDecl") or {}).get("name") for x in ir.walk_expr(cond) if x.get("kind") == "DeclRefExpr"}
+                incs = [x for x in incs if (ir.strip(ir.ekids(x)[0]).get("referencedDecl") or {}).get("name") in cvars]
+                if len(incs) != 1:
+                    continue
+                vname_ = (ir.strip(ir.ekids(incs[0])[0]).get("referencedDecl") or {}).get("name")
+                vd_ = names.get(vname_)
+                if vd_ is None or not ir.ekids(vd_):
+                    continue
+                init = {"kind": "DeclStmt", "inner": [vd_]}
+                inc = incs[0]
+                raw = [init, None, cond, inc, body_w]
+            else:
+                init, cond, inc = raw[0], raw[2], raw[3]
             vds = [c for c in ir.kids(init) if c.get("kind") == "VarDecl"] if isinstance(init, dict) and init.get("kind") else []
             if len(vds) != 1:
                 continue
